@@ -12,12 +12,12 @@
 pub type Results = Map<u64, BlockTranslationResult>;
 pub type Indices = Map<u64, (usize, usize)>;
 
-/// g2 holds every block and every edge of g, unchanged
+/// g2 holds every block of g, unchanged, and an edge wherever g has one (the guard of an edge may have been widened:
+/// the successor phase replaces the guard of an existing edge by its disjunction with the guard of a parallel one)
 pub open spec fn extends(g: ControlFlowGraph, g2: ControlFlowGraph) -> bool {
     &&& forall|k: usize| #![trigger g.graph.vertices@.contains_key(k)] g.graph.vertices@.contains_key(k) ==>
             g2.graph.vertices@.contains_key(k) && g2.graph.vertices@[k] == g.graph.vertices@[k]
-    &&& forall|e: (usize, usize)| #![trigger g.graph.edges@.contains_key(e)] g.graph.edges@.contains_key(e) ==>
-            g2.graph.edges@.contains_key(e) && g2.graph.edges@[e] == g.graph.edges@[e]
+    &&& forall|e: (usize, usize)| #![trigger g.graph.edges@.contains_key(e)] g.graph.edges@.contains_key(e) ==> g2.graph.edges@.contains_key(e)
     &&& g.next_index <= g2.next_index
 }
 
@@ -32,7 +32,7 @@ pub proof fn lemma_extends_trans(a: ControlFlowGraph, b: ControlFlowGraph, c: Co
         assert(b.graph.vertices@.contains_key(k));
     }
     assert forall|e: (usize, usize)| #![trigger a.graph.edges@.contains_key(e)] a.graph.edges@.contains_key(e) implies
-        c.graph.edges@.contains_key(e) && c.graph.edges@[e] == a.graph.edges@[e] by {
+        c.graph.edges@.contains_key(e) by {
         assert(b.graph.edges@.contains_key(e));
     }
 }
@@ -46,21 +46,31 @@ pub proof fn lemma_edge_extends(o: ControlFlowGraph, n: ControlFlowGraph, e: Edg
     assert(n.edge_added(o, e));
     assert(!o.has_edge(e.head, e.tail));
     assert forall|k: (usize, usize)| #![trigger o.graph.edges@.contains_key(k)] o.graph.edges@.contains_key(k) implies
-        n.graph.edges@.contains_key(k) && n.graph.edges@[k] == o.graph.edges@[k] by {
+        n.graph.edges@.contains_key(k) by {
         assert(n.graph.edges@.dom().contains(k));
-        assert(k != (e.head, e.tail));
     }
     assert(n.graph.edges@.dom().contains((e.head, e.tail)));
 }
 
-/// the copy of `g` under the block renaming `m` lies inside `big`, in the index range [b0, b0 + #blocks(g))
+/// the guard of an existing edge was replaced (ControlFlowGraph::edge_mut + Edge::condition_mut): same blocks, same edge set
+pub proof fn lemma_guard_extends(o: ControlFlowGraph, n: ControlFlowGraph, h: usize, t: usize, e: Edge)
+    requires
+        o.graph.edges@.contains_key((h, t)), n.graph.edges@ == o.graph.edges@.insert((h, t), e),
+        n.graph.vertices == o.graph.vertices, n.same_scalars(o),
+    ensures extends(o, n), n.graph.edges@.contains_key((h, t)),
+{
+    assert forall|k: (usize, usize)| #![trigger o.graph.edges@.contains_key(k)] o.graph.edges@.contains_key(k) implies n.graph.edges@.contains_key(k) by {}
+}
+
+/// the copy of `g` under the block renaming `m` lies inside `big`, in the index range [b0, b0 + #blocks(g)); its
+/// internal edges are edges of `big` (between the renamed blocks)
 pub open spec fn placed(big: ControlFlowGraph, g: ControlFlowGraph, m: Map<usize, usize>, b0: usize) -> bool {
     &&& forall|k: usize| #![trigger m.contains_key(k)] m.contains_key(k) <==> g.graph.vertices@.contains_key(k)
     &&& forall|k: usize| #![trigger m[k]] m.contains_key(k) ==> b0 <= m[k] < b0 + g.graph.vertices@.len()
             && big.graph.vertices@.contains_key(m[k]) && big.graph.vertices@[m[k]] == reindexed_block(g.graph.vertices@[k], m[k])
     &&& forall|k1: usize, k2: usize| #![trigger m[k1], m[k2]] m.contains_key(k1) && m.contains_key(k2) && k1 != k2 ==> m[k1] != m[k2]
     &&& forall|h: usize, t: usize| #![trigger g.graph.edges@.contains_key((h, t))] g.graph.edges@.contains_key((h, t)) ==>
-            big.graph.edges@.contains_key((m[h], m[t])) && big.graph.edges@[(m[h], m[t])] == renamed_edge(g.graph.edges@[(h, t)], m)
+            big.graph.edges@.contains_key((m[h], m[t]))
 }
 
 pub proof fn lemma_placed_from_insert(o: ControlFlowGraph, n: ControlFlowGraph, g: ControlFlowGraph, m: Map<usize, usize>, minv: Map<usize, usize>)
@@ -87,7 +97,7 @@ pub proof fn lemma_placed_frame(big: ControlFlowGraph, big2: ControlFlowGraph, g
         assert(big.graph.vertices@.contains_key(m[k]));
     }
     assert forall|h: usize, t: usize| #![trigger g.graph.edges@.contains_key((h, t))] g.graph.edges@.contains_key((h, t)) implies
-        big2.graph.edges@.contains_key((m[h], m[t])) && big2.graph.edges@[(m[h], m[t])] == renamed_edge(g.graph.edges@[(h, t)], m) by {
+        big2.graph.edges@.contains_key((m[h], m[t])) by {
         assert(big.graph.edges@.contains_key((m[h], m[t])));
     }
 }
@@ -569,11 +579,25 @@ pub proof fn lemma_recovered(tv: TrView, mv: MemView, o: Options, fa: u64, g: Co
     assert(rs.contains_key(fa) && bi.contains_key(fa));
     lemma_blocks_get(g, rs, ii, bi, fa);
     lemma_chain_has(g, rs[fa], ii, rs[fa].instructions@.len() as int, 0);
-    assert(result_ok(rs[fa], fa, tv.cap_blocks, tv.cap_budget));
+    assert(stored_ok(rs[fa], fa, tv.cap_blocks, tv.cap_budget));
     assert(ins_addr(rs[fa], 0) == fa);
     assert(all_succ_done(g2, rs, bi)) by {
         assert forall|k: u64| #![trigger rs.contains_key(k)] rs.contains_key(k) implies succ_done(g2, rs[k], bi, k, rs[k].successors@.len() as int) by {
             assert(succ_done(g, rs[k], bi, k, rs[k].successors@.len() as int));
         }
     }
+}
+
+// ---------------------------------------------------------------------------------------------
+// non-vacuity of the precondition: `confined` holds e.g. for a translator that decodes nothing, a memory without
+// bytes, no manual edges and U = {function address}
+pub proof fn lemma_confined_satisfiable(o: Options, fa: u64)
+    requires o.manual_edges@.len() == 0,
+    ensures exists|tv: TrView, mv: MemView, u: Set<u64>| #[trigger] confined(tv, mv, o, fa, u),
+{
+    let tv = TrView { may_return: |bytes: Seq<u8>, a: u64, oo: Options, b: BlockTranslationResult| false, cap_blocks: 1, cap_budget: 0 };
+    let mv = MemView { perm: |a: u64| None::<MemoryPermissions>, byte: |a: u64| None::<u8> };
+    let u = set![fa];
+    assert(u.len() == 1);
+    assert(confined(tv, mv, o, fa, u));
 }
